@@ -5,6 +5,7 @@ package interp
 
 import (
 	"fmt"
+	"os"
 	"go/token"
 	"go/types"
 	"strings"
@@ -38,6 +39,7 @@ func init() {
 		rtPath + ".Or":           func(fr *frame, a []value) value { return fr.i.vOr(a[0], a[1]) },
 		rtPath + ".Not":          func(fr *frame, a []value) value { return fr.i.vNot(a[0]) },
 		rtPath + ".Implies":      func(fr *frame, a []value) value { return fr.i.vOr(fr.i.vNot(a[0]), a[1]) },
+		rtPath + ".Debug":        extDebug,
 		rtPath + ".Ite":          extIte,
 		rtPath + ".IteU64":       extIte,
 
@@ -86,6 +88,9 @@ func init() {
 		"os.Getenv":             func(fr *frame, a []value) value { return "" },
 		"os.LookupEnv":          func(fr *frame, a []value) value { return tuple{"", false} },
 		"syscall.Getenv":        func(fr *frame, a []value) value { return tuple{"", false} },
+		"strconv.ParseUint":     extParseUint,
+		"strconv.Atoi":          extAtoi,
+		"fmt.Sscanf":            extSscanf,
 		"sort.Slice":            extSortSlice,
 		"sort.SliceStable":      extSortSlice,
 		"errors.Is":             extErrorsIs,
@@ -318,7 +323,7 @@ func (m *fmtMarkers) splice(i *interpreter, s string) value {
 		case string:
 			out = append(out, strBytes(v)...)
 		case sym:
-			out = append(out, i.decimalOf(v)...)
+			out = append(out, i.decimalSeg(v))
 		}
 		s = rest[e+1:]
 	}
@@ -521,6 +526,17 @@ func extErrorf(fr *frame, args []value) value {
 		}
 	}
 	return i.newError(msg)
+}
+
+// decimalSeg renders a symbolic integer as one decimal segment (non-negative values).
+func (i *interpreter) decimalSeg(v sym) value {
+	tt := i.tt()
+	if kindSigned(v.k) {
+		if i.ps.branch(tt.Cmp("slt", v.t, tt.Const(v.t.w, 0))) {
+			panic(engineError("decimal rendering of a negative symbolic integer"))
+		}
+	}
+	return decSeg{tt.ZExt(64, v.t)}
 }
 
 // decimalOf renders a symbolic integer in decimal. Only values whose digit count is
@@ -1021,4 +1037,110 @@ func (i *interpreter) callReal(fr *frame, pkg, name string, args []value) value 
 	}
 	i.bypass = fn
 	return callSSA(i, fr, 0, fn, args, nil)
+}
+
+// strconv.ParseUint / Atoi / fmt.Sscanf("%d") understand decimal segments; everything
+// else runs the real code.
+func extParseUint(fr *frame, args []value) value {
+	if t, ok := asDecimal(args[0]); ok {
+		base, bits := asInt64(args[1]), asInt64(args[2])
+		if (base == 10 || base == 0) && (bits == 64 || bits == 0) {
+			return tuple{mkval(t, types.Uint64), iface{}}
+		}
+		panic(engineError("ParseUint of a decimal segment with base/bitSize other than 10/64"))
+	}
+	if hasDec(args[0]) {
+		panic(engineError("ParseUint of a string mixing bytes and a decimal segment"))
+	}
+	return fr.i.callReal(fr, "strconv", "ParseUint", args)
+}
+
+func extAtoi(fr *frame, args []value) value {
+	if t, ok := asDecimal(args[0]); ok {
+		tt := fr.i.tt()
+		// values above MaxInt64 are range errors in the real Atoi
+		if fr.i.ps.branch(tt.Cmp("slt", t, tt.Const(64, 0))) {
+			panic(engineError("Atoi of a decimal segment above MaxInt64"))
+		}
+		return tuple{mkval(t, types.Int), iface{}}
+	}
+	if hasDec(args[0]) {
+		panic(engineError("Atoi of a string mixing bytes and a decimal segment"))
+	}
+	return fr.i.callReal(fr, "strconv", "Atoi", args)
+}
+
+func extSscanf(fr *frame, args []value) value {
+	i := fr.i
+	format, ok := args[1].(string)
+	var dsts []value
+	if args[2] != nil {
+		dsts = args[2].([]value)
+	}
+	if !ok || format != "%d" || len(dsts) != 1 {
+		panic(engineError("fmt.Sscanf: only the \"%d\" form with one destination is modelled"))
+	}
+	dst := dsts[0].(iface)
+	p, isPtr := dst.v.(*value)
+	if !isPtr || p == nil {
+		panic(engineError("fmt.Sscanf: destination is not a pointer"))
+	}
+	elem, ok2 := dst.t.Underlying().(*types.Pointer)
+	if !ok2 {
+		panic(engineError("fmt.Sscanf: destination is not a pointer"))
+	}
+	bk, ok3 := elem.Elem().Underlying().(*types.Basic)
+	if !ok3 {
+		panic(engineError("fmt.Sscanf: destination is not an integer"))
+	}
+	scanErr := func(msg string) value {
+		return tuple{0, i.newError(msg)}
+	}
+	if t, ok := asDecimal(args[0]); ok {
+		if kindWidth(bk.Kind()) != 64 || kindSigned(bk.Kind()) {
+			panic(engineError("fmt.Sscanf of a decimal segment into a non-uint64"))
+		}
+		*p = mkval(t, bk.Kind())
+		return tuple{1, iface{}}
+	}
+	s, isConc := args[0].(string)
+	if !isConc {
+		panic(engineError("fmt.Sscanf of a string with symbolic bytes"))
+	}
+	// concrete input: use the real fmt natively
+	switch bk.Kind() {
+	case types.Uint64:
+		var v uint64
+		n, err := fmt.Sscanf(s, "%d", &v)
+		if err != nil {
+			return scanErr(err.Error())
+		}
+		*p = v
+		return tuple{n, iface{}}
+	case types.Int:
+		var v int
+		n, err := fmt.Sscanf(s, "%d", &v)
+		if err != nil {
+			return scanErr(err.Error())
+		}
+		*p = v
+		return tuple{n, iface{}}
+	}
+	panic(engineError("fmt.Sscanf: unsupported destination kind"))
+}
+
+func extDebug(fr *frame, args []value) value {
+	if os.Getenv("GOBMC_DEBUG") == "" {
+		return nil
+	}
+	m := &fmtMarkers{}
+	var parts []string
+	if args[1] != nil {
+		for _, a := range args[1].([]value) {
+			na := fr.i.nativeArg(fr, m, a)
+			parts = append(parts, fmt.Sprintf("%v", na))
+		}
+	}
+	fmt.Fprintf(os.Stderr, "DEBUG %s: %s\n", toString(args[0]), strings.Join(parts, " | "))
+	return nil
 }
